@@ -208,7 +208,7 @@ pub fn validate_signature(sig: &str) -> Result<()> {
                             return Err(Error::InvalidSignature(signature::Error::InvalidSignature))
                         }
                     }
-                    let val_sig_len = validate_next(sig, pos + 2, array_depth, bracket_depth + 1)?;
+                    let val_sig_len = validate_next(sig, pos + 2, array_depth, bracket_depth)?;
                     let inner_sigs_len = 1 + val_sig_len;
                     if pos + inner_sigs_len + 1 >= sig.len() {
                         Err(Error::InvalidSignature(signature::Error::InvalidSignature))
